@@ -54,7 +54,12 @@ def envChainOK (b : Spec2.BaseVec) (t : Option Spec2.TempVec) (n : Spec2.EnvVec)
   cands.any fun kb => Spec2.okAdjBase b n kb &&
     cands.any fun kt => Spec2.okTemporal kb t kt && Spec2.isRound1 (Spec2.envRaw kt n) ke
 
-def spec2 (L : Level) (s : Bytes) (kb kt ke : Option Int) : String :=
+/-- the rest of the chain given an assumed adjusted base score (used to recognise known finding F2) -/
+def envChainFrom (kadj : Int) (t : Option Spec2.TempVec) (n : Spec2.EnvVec) (ke : Int) : Bool :=
+  let cands : List Int := (List.range 141).map fun i => Int.ofNat i - 40
+  cands.any fun kt => Spec2.okTemporal kadj t kt && Spec2.isRound1 (Spec2.envRaw kt n) ke
+
+def spec2 (L : Level) (s : Bytes) (kb kt ke : Option Int) (kadj : Option Int := none) : String :=
   if Spec2.canon2 L s then
     let ms := Spec2.metricsOf L
     let fc := cj (ms.map fun m => bytesToStr ((Spec2.written m s).getD []))
@@ -75,7 +80,10 @@ def spec2 (L : Level) (s : Bytes) (kb kt ke : Option Int) : String :=
         | some n => okStr (decide (Spec2.adjustedBaseRaw b n < 0))
         | none => "0"
       let g := okStr t.isSome ++ okStr n.isSome
-      s!"acc=1 fc={fc} g={g} okb={okb} okt={okt} oke={oke} neg={neg} canon={canon}"
+      let okc := match kadj, ke, n with
+        | some ka, some k'', some n => okStr (envChainFrom ka t n k'')
+        | _, _, _ => "x"
+      s!"acc=1 fc={fc} g={g} okb={okb} okt={okt} oke={oke} okc={okc} neg={neg} canon={canon}"
   else
     let ds := Err.all.filter fun e => Spec2.defect2 L e s
     s!"acc=0 allowed={"+".intercalate (ds.map Err.tag)}"
@@ -194,6 +202,8 @@ def runOpExt (f : List String) : Option String :=
       let L ← levelOf' l; let s ← ofHex h; pure (compactSpec (spec2 L s (optInt kb) (optInt kt) (optInt ke)))
   | ["SPEC2", l, h, kb, kt, ke] => do
       let L ← levelOf' l; let s ← ofHex h; pure (spec2 L s (optInt kb) (optInt kt) (optInt ke))
+  | ["SPEC2", l, h, kb, kt, ke, kadj] => do
+      let L ← levelOf' l; let s ← ofHex h; pure (spec2 L s (optInt kb) (optInt kt) (optInt ke) (optInt kadj))
   | ["SPEC2", l, h] => do
       let L ← levelOf' l; let s ← ofHex h; pure (spec2 L s none none none)
   | ["T3", m, op, arg] => do let m ← m3OfName m; tab3 m op arg
